@@ -1282,6 +1282,439 @@ scenario_large(void)
             }
 }
 
+/* ---- scenario X: the source of a store overlaps the auxiliary buffer -------------------------------- */
+
+/*
+ * The caller's source block [src, src+len) of a full or partial store lies at
+ * every position relative to the auxiliary buffer [aux, aux+b) at which the two
+ * overlap or touch: src - aux = -len .. b (one exact heap block holds the union).
+ * The library may use the auxiliary buffer whenever it likes, so what the source
+ * block holds by the time the library reads it is the library's business; the
+ * statement's sentences about the *result* do not depend on it and are all that
+ * is demanded after a store that reports success:
+ *   - the checksum octets on the medium encode the configured algorithm over the
+ *     data image on the medium ("the checksum on the medium equals the configured
+ *     algorithm applied to the data image no matter how the library chunks its
+ *     reads");
+ *   - validation succeeds;
+ *   - a fetch (into a separate block) returns the data image on the medium.
+ * That the octets stored are those the source held when the call was made is
+ * NOT demanded here (scenario B demands it for sources that overlap nothing).
+ * Destinations of fetches that overlap the auxiliary buffer, and sources inside
+ * a memory-mapped medium, are not generated (see checks.d: assumptions).
+ */
+static void
+alias_case(const struct cfg *c, bool full, size_t off, size_t len, long d)
+{
+    const size_t b = (size_t)c->buf;
+    if (!mc_case(CFGFMT " X:reset(ee),store(image2),%s(image3,off=%zu,len=%zu) with src = aux%+ld "
+                 "(one block holds both),validate,fetch", CFGARG(c), full ? "store" : "store_part", off, len, d))
+        return;
+    /* the instance gets its auxiliary buffer inside the arena */
+    struct cfg nb = *c;
+    nb.buf = -1;
+    struct inst in;
+    begin_case(&nb, &in);
+    const size_t a_off = d < 0 ? (size_t)-d : 0, s_off = d > 0 ? (size_t)d : 0;
+    const size_t a_end = a_off + b, s_end = s_off + len;
+    const size_t asize = a_end > s_end ? a_end : s_end;
+    unsigned char *arena = mc_exact(asize);
+    memset(arena, 0xa5, asize);
+    persistent_buffer(&in.s, arena + a_off, b);
+    unsigned char image[NMAX], part[NMAX];
+    make_image(image, c->N, 2);
+    make_image(part, c->N, 3);
+    const bool overlap = d > -(long)len && d < (long)b;
+    const char *outcome = overlap ? "alias-src-overlaps-aux" : "alias-src-touches-aux";
+    int orders = 0;
+    if (do_reset(&in, 0xee) && do_store(&in, c, image, &orders)) {
+        memset(arena, 0xa5, asize);
+        memcpy(arena + s_off, part + off, len);
+        mc_log_hex("  arena (source block and auxiliary buffer)", arena, asize);
+        unsigned char *before = mc_exact_copy(M.img, M.size);
+        PersistentAccess rc;
+        bool ok = run_op(&in, full ? OP_STORE : OP_STORE_PART, arena + s_off, off, len, 0, &rc);
+        if (ok && rc != PERSISTENT_ACCESS_SUCCESS) {
+            store_refused(&in, c, before, full ? "store" : "store_part", rc);
+            ok = false;
+        }
+        free(before);
+        if (ok) {
+            const size_t cs = cks_size(c->ck);
+            mc_log_hex("  region", M.img, M.size);
+            const int o = region_interps(M.img, cs, c->N, c->ck, NULL) & orders;
+            if (o == 0) {
+                FAIL("C10/checksum-on-medium",
+                     "after a successful %s whose source block overlaps or touches the auxiliary buffer the "
+                     "checksum octets on the medium do not encode %s(data image on the medium)",
+                     full ? "store" : "store_part", CKNAME[c->ck]);
+                ok = false;
+            }
+            if (ok && run_op(&in, OP_VALIDATE, NULL, 0, 0, 0, &rc) && rc != PERSISTENT_ACCESS_SUCCESS) {
+                FAIL("C10/validate-after-store", "validate returned %d after a successful %s", (int)rc,
+                     full ? "store" : "store_part");
+                ok = false;
+            }
+            const bool cf = (o & 0x3) != 0, df = (o & 0xc) != 0;
+            if (ok && !hung_here && cf != df) {
+                unsigned char *dst = mc_exact(c->N);
+                memset(dst, 0xee, c->N);
+                if (run_op(&in, OP_FETCH, dst, 0, 0, 0, &rc)) {
+                    mc_log_hex("  fetched", dst, c->N);
+                    if (rc != PERSISTENT_ACCESS_SUCCESS)
+                        FAIL("C10/fetch-returns-image", "fetch returned %d after a successful %s", (int)rc,
+                             full ? "store" : "store_part");
+                    else if (memcmp(dst, M.img + (df ? 0 : cs), c->N) != 0)
+                        FAIL("C10/fetch-returns-image", "fetch did not return the data image the medium holds");
+                }
+                free(dst);
+            }
+        }
+    }
+    free(arena);
+    end_case(&in, true, outcome);
+}
+
+static void
+scenario_alias(const struct cfg *c)
+{
+    if (c->buf < 1)
+        return;
+    for (int full = 1; full >= 0; --full)
+        for (size_t off = 0; off < c->N; ++off)
+            for (size_t len = 1; off + len <= c->N; ++len) {
+                if (full && !(off == 0 && len == c->N))
+                    continue;
+                for (long d = -(long)len; d <= (long)c->buf; ++d)
+                    alias_case(c, full != 0, off, len, d);
+            }
+}
+
+/* ---- scenario O: operation histories on one instance over two banks ---------------------------------- */
+
+/*
+ * ONE instance; validations and fetches precede and follow stores, resets,
+ * alterations and re-configurations.  The medium has two banks (disjoint blocks
+ * of 4+N octets at placements A and B); the region in force is that of the
+ * configuration the documented meaning of the calls made so far adds up to.
+ * Every sequence of length <= L over
+ *   s store(next image)   p store_part(next image, middle part)   v validate
+ *   f fetch   r reset   m place(other bank)   k sum16(CRC-16/ARC)   K sum32
+ *   i init+place(bank in force)+buffer (back to the default sum)
+ *   a / z  the harness alters the first / last octet of the region in force
+ * x what the banks hold at the start (A: nothing | an image stored by another
+ * instance; B: nothing | an image stored by another instance, unaltered | first
+ * | last region octet altered).
+ *
+ * Reference: per bank "an image was stored successfully under checksum kind
+ * sck, and the region octets right after that store were sbytes".  O:
+ *   - a successful store / store_part is held to the oracle of scenarios A/B
+ *     (image and checksum on the medium, validate, fetch);
+ *   - validate with the kind in force = sck: region octets = sbytes => success
+ *     ("after a successful store validation succeeds" - also later, and after
+ *     the instance was pointed elsewhere and back); region octets != sbytes and
+ *     not consistent in themselves => invalid data ("any alteration of a stored
+ *     octet is reported as invalid data whenever the checksum distinguishes");
+ *   - fetch with the kind in force = sck and region octets = sbytes returns the
+ *     stored image;
+ *   - reset: every octet of the region in force = fill;
+ *   - all accesses inside the region in force.
+ * Nothing is demanded of validate/fetch over a region nothing was stored in
+ * under the kind in force.
+ */
+enum { O_S, O_P, O_V, O_F, O_R, O_M, O_K16, O_K32, O_I, O_A, O_Z, O_NOPS };
+static const char ONAME[O_NOPS + 1] = "spvfrmkKiaz";
+
+struct obank {
+    unsigned char *blk;
+    uint32_t place;
+    bool stored;
+    int sck;
+    size_t ssize;
+    unsigned char simg[NMAX], sbytes[NMAX + 4];
+};
+
+struct oworld {
+    struct inst in;
+    struct cfg cur; /* N and the checksum kind in force (placement fields unused) */
+    struct obank bank[2];
+    int b;
+    int interp[CK_GRID];
+    int nimg;
+    bool stop, undetermined;
+};
+
+static void
+o_select(struct oworld *w)
+{
+    M.img = w->bank[w->b].blk;
+    M.lo = w->bank[w->b].place;
+    M.size = cks_size(w->cur.ck) + w->cur.N;
+}
+
+static void
+o_remember(struct oworld *w, const unsigned char *image)
+{
+    struct obank *k = &w->bank[w->b];
+    k->stored = true;
+    k->sck = w->cur.ck;
+    k->ssize = M.size;
+    memcpy(k->simg, image, w->cur.N);
+    memcpy(k->sbytes, M.img, M.size);
+}
+
+/* a separate instance stores `image` into bank b under checksum kind ck */
+static bool
+o_writer(struct oworld *w, const struct cfg *c0, int b, int ck, const unsigned char *image, bool remember)
+{
+    struct inst wr;
+    memset(&wr, 0, sizeof wr);
+    const int keep_b = w->b, keep_ck = w->cur.ck;
+    w->b = b;
+    w->cur.ck = ck;
+    o_select(w);
+    persistent_init(&wr.s, c0->N, med_read, med_write);
+    persistent_place(&wr.s, w->bank[b].place);
+    if (ck == CK_CRC16)
+        persistent_sum16(&wr.s, cb_crc16, 0u);
+    else if (ck == CK_SUM32)
+        persistent_sum32(&wr.s, cb_sum32, c0->init);
+    unsigned char *src = mc_exact_copy(image, c0->N);
+    PersistentAccess rc;
+    bool ok = run_op(&wr, OP_STORE, src, 0, 0, 0, &rc) && rc == PERSISTENT_ACCESS_SUCCESS && !failed_here;
+    free(src);
+    if (ok) {
+        const int o = region_interps(M.img, cks_size(ck), c0->N, ck, image);
+        w->interp[ck] &= o;
+        ok = w->interp[ck] != 0;
+        if (ok && remember)
+            o_remember(w, image);
+    }
+    w->b = keep_b;
+    w->cur.ck = keep_ck;
+    o_select(w);
+    return ok;
+}
+
+static void
+o_op(struct oworld *w, int op)
+{
+    const size_t N = w->cur.N;
+    struct obank *k = &w->bank[w->b];
+    mc_log(" op %c (bank %c, %s)", ONAME[op], "AB"[w->b], CKNAME[w->cur.ck]);
+    switch (op) {
+    case O_M:
+        w->b ^= 1;
+        persistent_place(&w->in.s, w->bank[w->b].place);
+        o_select(w);
+        return;
+    case O_K16:
+        w->cur.ck = CK_CRC16;
+        persistent_sum16(&w->in.s, cb_crc16, 0u);
+        o_select(w);
+        return;
+    case O_K32:
+        w->cur.ck = CK_SUM32;
+        persistent_sum32(&w->in.s, cb_sum32, w->cur.init);
+        o_select(w);
+        return;
+    case O_I:
+        w->cur.ck = CK_DEFAULT;
+        persistent_init(&w->in.s, N, med_read, med_write);
+        persistent_place(&w->in.s, k->place);
+        if (w->cur.buf >= 0)
+            persistent_buffer(&w->in.s, w->in.aux, (size_t)w->cur.buf);
+        o_select(w);
+        return;
+    case O_A: M.img[0] ^= 0x01; return;
+    case O_Z: M.img[M.size - 1] ^= 0x80; return;
+    default: break;
+    }
+    const int ck = w->cur.ck;
+    const size_t cs = cks_size(ck);
+    const bool known = k->stored && k->sck == ck;
+    const bool intact = known && memcmp(M.img, k->sbytes, M.size) == 0;
+    PersistentAccess rc;
+    interp_here = w->interp[ck];
+    switch (op) {
+    case O_S:
+    case O_P: {
+        static const int IM[4] = { 2, 3, 1, 0 };
+        unsigned char image[NMAX], expect[NMAX];
+        make_image(image, N, IM[w->nimg++ % 4]);
+        size_t off = 0, len = N;
+        if (op == O_P) {
+            off = N >= 2 ? 1 : 0;
+            len = N >= 3 ? N - 2 : 1;
+            /* the data image the part goes into: the stored one, else what the
+             * medium holds where a store under this kind puts its data */
+            const bool cf = (w->interp[ck] & 0x3) != 0, df = (w->interp[ck] & 0xc) != 0;
+            if (intact)
+                memcpy(expect, k->simg, N);
+            else if (cf != df)
+                memcpy(expect, M.img + (df ? 0 : cs), N);
+            else {
+                /* not determined where the data octets are (a one-octet image under
+                 * the octet sum reads the same in both layouts) */
+                w->stop = w->undetermined = true;
+                break;
+            }
+        }
+        memcpy(expect + off, image + off, len);
+        unsigned char *src = mc_exact_copy(image + off, len);
+        unsigned char *before = mc_exact_copy(M.img, M.size);
+        bool ok = run_op(&w->in, op == O_S ? OP_STORE : OP_STORE_PART, src, off, len, 0, &rc);
+        free(src);
+        if (ok && rc != PERSISTENT_ACCESS_SUCCESS) {
+            store_refused(&w->in, &w->cur, before, op == O_S ? "store" : "store_part", rc);
+            ok = false;
+        }
+        free(before);
+        k->stored = false;
+        if (ok && check_stored(&w->in, &w->cur, expect, NULL))
+            o_remember(w, expect);
+        else
+            w->stop = true;
+        break;
+    }
+    case O_V:
+        if (!run_op(&w->in, OP_VALIDATE, NULL, 0, 0, 0, &rc)) {
+            w->stop = true;
+        } else if (intact && rc != PERSISTENT_ACCESS_SUCCESS) {
+            FAIL("C10/validate-after-store",
+                 "validate returned %d over bank %c, which holds exactly what a successful store under %s left there",
+                 (int)rc, "AB"[w->b], CKNAME[ck]);
+            w->stop = true;
+        } else if (known && !intact && rc != PERSISTENT_ACCESS_INVALID_DATA
+                   && (region_interps(M.img, cs, N, ck, NULL) & w->interp[ck]) == 0) {
+            mc_log_hex("  region in force", M.img, M.size);
+            FAIL("C10/alteration-detected",
+                 "validate returned %d over bank %c although %s distinguishes the altered region from the stored one",
+                 (int)rc, "AB"[w->b], CKNAME[ck]);
+            w->stop = true;
+        }
+        break;
+    case O_F: {
+        unsigned char *dst = mc_exact(N);
+        memset(dst, 0xee, N);
+        if (!run_op(&w->in, OP_FETCH, dst, 0, 0, 0, &rc)) {
+            w->stop = true;
+        } else if (intact) {
+            mc_log_hex("  fetched", dst, N);
+            if (rc != PERSISTENT_ACCESS_SUCCESS) {
+                FAIL("C10/fetch-returns-image", "fetch returned %d over bank %c, which holds a stored image",
+                     (int)rc, "AB"[w->b]);
+                w->stop = true;
+            } else if (memcmp(dst, k->simg, N) != 0) {
+                FAIL("C10/fetch-returns-image", "fetch did not return the image stored in bank %c", "AB"[w->b]);
+                w->stop = true;
+            }
+        }
+        free(dst);
+        break;
+    }
+    default: /* O_R */
+        k->stored = false;
+        if (!do_reset(&w->in, FILLS[w->nimg % 3]))
+            w->stop = true;
+        break;
+    }
+    w->interp[ck] = interp_here ? interp_here : w->interp[ck];
+    if (failed_here || hung_here || refused_here)
+        w->stop = true;
+}
+
+#define OKINDS 8
+static void
+ohist_case(const struct cfg *c0, const uint32_t place[2], int kind, const unsigned char *ops, int nops)
+{
+    static const char *const AK[2] = { "nothing", "stored" };
+    static const char *const BK[4] = { "nothing", "stored", "stored,first-octet-altered", "stored,last-octet-altered" };
+    char seq[16];
+    for (int i = 0; i < nops; ++i)
+        seq[i] = ONAME[ops[i]];
+    seq[nops] = 0;
+    if (!mc_case("N=%zu A=%lu B=%lu ck=%s buf=%d O:bankA=%s bankB=%s ops=%s", c0->N, (unsigned long)place[0],
+                 (unsigned long)place[1], CKNAME[c0->ck], c0->buf, AK[kind & 1], BK[kind >> 1], nops ? seq : "-"))
+        return;
+    struct oworld w;
+    memset(&w, 0, sizeof w);
+    failed_here = hung_here = refused_here = false;
+    interp_here = INTERP_ALL;
+    cur_init = c0->init;
+    w.cur = *c0;
+    w.cur.h = NULL;
+    for (int b = 0; b < 2; ++b) {
+        w.bank[b].blk = mc_exact(c0->N + 4);
+        memset(w.bank[b].blk, 0xcd, c0->N + 4);
+        w.bank[b].place = place[b];
+    }
+    for (int ck = 0; ck < CK_GRID; ++ck)
+        w.interp[ck] = INTERP_ALL;
+    unsigned char img[NMAX];
+    bool ready = true;
+    /* how a store lays out and encodes each checksum kind (scratch use of bank A) */
+    make_image(img, c0->N, 2);
+    for (int ck = 0; ready && ck < CK_GRID; ++ck)
+        ready = o_writer(&w, c0, 0, ck, img, false);
+    memset(w.bank[0].blk, 0xcd, c0->N + 4);
+    if (ready && (kind & 1)) {
+        make_image(img, c0->N, 3);
+        ready = o_writer(&w, c0, 0, c0->ck, img, true);
+    }
+    if (ready && (kind >> 1)) {
+        make_image(img, c0->N, 2);
+        ready = o_writer(&w, c0, 1, c0->ck, img, true);
+        if ((kind >> 1) == 2)
+            w.bank[1].blk[0] ^= 0x01;
+        else if ((kind >> 1) == 3)
+            w.bank[1].blk[cks_size(c0->ck) + c0->N - 1] ^= 0x80;
+    }
+    if (!ready && !failed_here && !hung_here)
+        refused_here = true; /* a plain store by a fresh instance did not succeed: scenario A's subject */
+    if (ready) {
+        w.b = 0;
+        w.cur.ck = c0->ck;
+        o_select(&w);
+        struct cfg ic = *c0;
+        ic.h = NULL;
+        ic.order = 0;
+        /* inst_make places the instance through cfg_place(); do it by hand for bank A */
+        memset(&w.in, 0, sizeof w.in);
+        persistent_init(&w.in.s, c0->N, med_read, med_write);
+        persistent_place(&w.in.s, place[0]);
+        inst_sum(&w.in, &ic);
+        if (c0->buf >= 0) {
+            w.in.aux = mc_exact((size_t)c0->buf);
+            persistent_buffer(&w.in.s, w.in.aux, (size_t)c0->buf);
+        }
+        for (int i = 0; i < nops && !w.stop; ++i)
+            o_op(&w, ops[i]);
+        inst_free(&w.in);
+    }
+    for (int b = 0; b < 2; ++b)
+        free(w.bank[b].blk);
+    M.img = NULL;
+    mc_end(ready && !w.stop && !failed_here && !refused_here,
+           hung_here ? "hang" : failed_here ? "failed" : refused_here ? "store-refused"
+           : w.undetermined ? "ophist-part-undetermined" : w.stop ? "ophist-cut-short" : "ophist-ok");
+}
+
+static void
+scenario_ophist(const struct cfg *c0, const uint32_t place[2], int maxlen)
+{
+    int npow = 1;
+    for (int n = 0; n <= maxlen; ++n, npow *= O_NOPS)
+        for (int code = 0; code < npow; ++code) {
+            unsigned char ops[8];
+            int x = code;
+            for (int i = 0; i < n; ++i, x /= O_NOPS)
+                ops[i] = (unsigned char)(x % O_NOPS);
+            for (int kind = 0; kind < OKINDS; ++kind)
+                ohist_case(c0, place, kind, ops, n);
+        }
+}
+
 /* ---- anchors ----------------------------------------------------------------------------- */
 
 static void
@@ -1312,6 +1745,7 @@ main(int argc, char **argv)
     mc_init(argc, argv);
     anchors();
     const size_t nmax = mc_thorough() ? 24 : 10;
+    const size_t amax = mc_thorough() ? 16 : 8; /* X: source overlapping the auxiliary buffer */
     struct cfg c;
     memset(&c, 0, sizeof c);
     c.init = SUM32_INIT;
@@ -1326,6 +1760,8 @@ main(int argc, char **argv)
                         scenario_part(&c);
                         scenario_refuse(&c);
                         scenario_alter(&c);
+                        if (c.N <= amax)
+                            scenario_alias(&c);
                     }
     }
     /* E: special checksum values */
@@ -1364,6 +1800,38 @@ main(int argc, char **argv)
                 }
         }
     c.h = NULL;
+    /* O: operation histories on one instance over two banks */
+    const size_t omax = mc_thorough() ? 6 : 3;
+    const int olen = 4;
+    {
+        static const uint32_t OPL[] = { 100u, 0u, PLACE_TOP };
+        const int nopl = mc_thorough() ? 3 : 1;
+        for (int deep = 0; deep < (mc_thorough() ? 2 : 1); ++deep)
+            for (c.N = deep ? 2 : 1; c.N <= (deep ? 3 : omax); ++c.N)
+                for (int pi = 0; pi < (deep ? 1 : nopl); ++pi)
+                    for (c.ck = 0; c.ck < CK_GRID; ++c.ck) {
+                        const int bq[3] = { -1, 1, (int)c.N + 1 };
+                        const int bt[4] = { -1, 1, 3, (int)c.N + 1 };
+                        const int bd[2] = { -1, (int)c.N + 1 };
+                        const int *bl = deep ? bd : mc_thorough() ? bt : bq;
+                        const int nbl = deep ? 2 : mc_thorough() ? 4 : 3;
+                        for (int bi = 0; bi < nbl; ++bi) {
+                            const uint32_t blk = (uint32_t)(c.N + 4);
+                            uint32_t place[2];
+                            if (OPL[pi] == PLACE_TOP) {
+                                place[0] = (uint32_t)(0x100000000ull - blk); /* bank A ends at 2^32 */
+                                place[1] = place[0] - blk - 3u;
+                            } else {
+                                place[0] = OPL[pi];
+                                place[1] = place[0] + blk + 3u;
+                            }
+                            c.buf = bl[bi];
+                            c.order = 0;
+                            c.place_i = 0;
+                            scenario_ophist(&c, place, deep ? 5 : olen);
+                        }
+                    }
+    }
     /* what the prototypes let scenario C hand in */
     char cpairs[200];
     {
@@ -1377,7 +1845,7 @@ main(int argc, char **argv)
                  wide ? "(8: the prototypes take 64-bit offsets and lengths)"
                       : "only as far as the prototypes' parameter types represent them");
     }
-    char bound[1500];
+    char bound[2600];
     snprintf(bound, sizeof bound,
              "data sizes 1..%zu%s x placements {0,1,7,100,straddling 2^16,straddling 2^31,ending at 2^32} x "
              "{default sum16, CRC-16/ARC, sum32} x both configuration orders x auxiliary buffer {none, 0..N+1} x "
@@ -1387,10 +1855,17 @@ main(int argc, char **argv)
              "65535,65536,65537} x placements {0, ending at 2^32} x 3 checksums x buffers {none,7,255,256,65536,N+1} x 2 "
              "compact sequences (parts at the last octet and over the second half); H: sizes 1..%zu x "
              "placements %s x every call sequence of length <= %d over {init,place(A),place(B),sum16,sum32} after "
-             "the first init (%d histories) x object prefill {00,a5} x buffers %s x 4 compact sequences",
+             "the first init (%d histories) x object prefill {00,a5} x buffers %s x 4 compact sequences; X: sizes 1..%zu "
+             "(same grid, buffers 1..N+1) x full store and every store_part (offset,len>=1) x source block at every "
+             "position src-aux = -len..bufsize relative to the auxiliary buffer (overlapping or touching); O: sizes "
+             "1..%zu x bank placements %s x 3 checksums x buffers %s x 8 initial bank contents x every operation "
+             "sequence of length <= %d over {store, store_part, validate, fetch, reset, place(other bank), sum16, sum32, "
+             "init, alter first/last region octet} on one instance%s",
              nmax, mc_thorough() ? " and 32" : "", cpairs, emax, mc_thorough() ? "(all 7)" : "{0,100,ending at 2^32}",
              hmax, mc_thorough() ? "(all 7)" : "{0,100,ending at 2^32}", hlen, NHISTS,
-             mc_thorough() ? "{none,1,3,N+1}" : "{none,3,N+1}");
+             mc_thorough() ? "{none,1,3,N+1}" : "{none,3,N+1}", amax, omax,
+             mc_thorough() ? "{100,0,ending at 2^32}" : "{100}", mc_thorough() ? "{none,1,3,N+1}" : "{none,1,N+1}", olen,
+             mc_thorough() ? ", and of length <= 5 for sizes 2..3 x placement 100 x buffers {none,N+1}" : "");
     mc_finish(true, bound);
     return 0;
 }
